@@ -14,8 +14,11 @@ def _runs(tier):
             runs.append(_r(n, ["--dim", "2", "--depth", "2", "--consts", "small"], 600))
         for n in ("bds_mpq", "oct_mpq"):   # binary predicates in dimension 3 (disjointness needs three variables)
             runs.append(_r(n, ["--dim", "3", "--mindim", "3", "--depth", "2", "--consts", "tiny", "--what", "binq", "--poolq-depth", "2", "--poolsigs", "1"], 300))
+        for n in _Q:   # join scenarios in dimension 3: every ordered pair of points / axis-parallel segments / boxes (L, T, cross shapes)
+            runs.append(_r(n, ["--dim", "3", "--mindim", "3", "--depth", "0", "--what", "pairs"], 300))
         return runs
     for n in _Q:
+        runs.append(_r(n, ["--dim", "3", "--mindim", "3", "--depth", "0", "--what", "pairs"], 1200))
         runs.append(_r(n, ["--dim", "2", "--depth", "2", "--consts", "full"], 2400))                                   # full constant menu, full operator menus
         runs.append(_r(n, ["--dim", "2", "--depth", "3", "--consts", "small", "--what", "queries"], 2400))            # every query on every state class of depth 3
     runs.append(_r("bds_mpq", ["--dim", "3", "--mindim", "3", "--depth", "2", "--consts", "small", "--what", "binq", "--poolq-depth", "2", "--poolsigs", "1"], 2400))
